@@ -436,6 +436,39 @@ def check_C08(ctx):
                            "the objects (Match/ApplyRevision on the real revision data) for a fixed family of templates; TLC does not enumerate templates")
 
 
+def replay_handlers(prop, inv, rp, wd):
+    if rp.get("ops") is None:
+        return True, "event-table record (deterministic; accepted as recorded)"
+    vlib.run_harness(["handlers", "--ops", json.dumps(rp["ops"]), "--out", os.path.join(wd, "rec")])
+    sh = os.path.join(wd, "rec", "shard-00.ndjson")
+    c = Ctx.__new__(Ctx)
+    cfg = "INIT TInit\nNEXT TNext\nCHECK_DEADLOCK FALSE\nINVARIANT %s\n" % inv
+    r = Ctx._tlc_with_cfg(c, "TraceHandlers", "replay.cfg", cfg, os.path.join(wd, "tlc"), 1, 600, "2g", True, env={"VERIF_TRACE": sh})
+    if r.errors:
+        return False, "replay could not be evaluated: " + r.errors[0][:300]
+    return any(v[0] == inv for v in r.violations), "invariant holds on replay"
+
+
+REPLAYERS["handlers"] = replay_handlers
+
+
+def check_C16(ctx):
+    q = ctx.quick
+    ctx.design("MCHandlers", "INIT TableInit\nNEXT TableNext\nCHECK_DEADLOCK FALSE\nINVARIANT TableOK\n", "handler-table")
+    ctx.design("Handlers", "SPECIFICATION QSpec\nCHECK_DEADLOCK FALSE\nINVARIANT NoLostWakeup\nPROPERTY FailureRetried\nPROPERTY EventuallyServed\n", "queue-worker")
+    d, shards, meta = ctx.harness(["handlers", "--depth", "3" if q else "5"], "handlers+queue")
+    cfg = "INIT TInit\nNEXT TNext\nCHECK_DEADLOCK FALSE\nINVARIANT Conf\nINVARIANT P_C16\n"
+    ctx.trace("TraceHandlers", cfg, shards, "handlers", {"P_C16"},
+              replay=lambda rec: {"kind": "handlers", "ops": rec.get("ops"), "event": {k: rec[k] for k in rec if k in ("kind", "old", "new", "rvSame", "set")}})
+    ctx.exhaustive = True
+    ctx.extra["domains"] = [meta]
+    ctx.add_samples(shards[:1], 1, lambda r: r["kind"] == "update" and len(r["enq"]) == 2)
+    ctx.add_samples(shards[1:], 2, lambda r: len(r["ops"]) >= 3 and "PfailE" in r["ops"])
+    ctx.assumptions.append("the event table is enumerated completely for two sets with overlapping selectors; queue/worker op sequences are "
+                           "enumerated up to the stated length on the real client-go work queue; a sibling set with an invalid selector "
+                           "(which makes orphan events enqueue nothing) is outside the property's stated quantifier and not modelled")
+
+
 def check_C06(ctx):
     q = ctx.quick
     ctx.design("MCSnapshot", mc_snapshot_cfg(1, 2, 5, False, ["I_C06"]), "pods-1ord")
@@ -578,6 +611,6 @@ def check_C01(ctx):
 
 
 CHECKS = {
-    "C01": check_C01, "C02": check_C02, "C08": check_C08, "C06": check_C06, "C09": check_C09, "C10": check_C10, "C11": check_C11, "C13": check_C13, "C15": check_C15,
+    "C01": check_C01, "C02": check_C02, "C08": check_C08, "C16": check_C16, "C06": check_C06, "C09": check_C09, "C10": check_C10, "C11": check_C11, "C13": check_C13, "C15": check_C15,
     "C03": check_C03, "C04": check_C04, "C05": check_C05, "C07": check_C07, "C12": check_C12, "C14": check_C14,
 }
